@@ -189,6 +189,9 @@ func (c *Conn) Deliver() bool {
 	return true
 }
 
+// IsPeerClosed reports whether the backend side has closed the connection.
+func (c *Conn) IsPeerClosed() bool { c.mu.Lock(); defer c.mu.Unlock(); return c.PeerClosed }
+
 // Cut closes the connection from the backend side (models a severed socket).
 func (c *Conn) Cut() {
 	c.mu.Lock()
